@@ -21,7 +21,7 @@ type Opts struct {
 	Feat      map[string]int // feature counters (what the generated values exercised)
 }
 
-var DefaultLens = []int{0, 0, 1, 1, 2, 3, 3, 17}
+var DefaultLens = []int{0, 0, 1, 1, 1, 2, 2, 3, 3, 17, 17, 40, 130, 300}
 var DefaultStrLens = []int{0, 1, 2, 5, 17, 64, 255, 256, 1000}
 
 type Gen struct {
